@@ -259,7 +259,7 @@ DBUF_ASSUME = [
 ]
 
 
-COMP_TRACE = {'suffix': 'Suffix_Trace', 'config': 'Config_Trace', 'tworun': 'TwoRun_Trace', 'dbuf': 'DecoderBuf_Trace', 'dec': 'Decoder_Trace', 'parser': 'Parser_Trace', 'wrap': 'Wrap_Trace'}
+COMP_TRACE = {'e2e': 'E2E_Trace', 'suffix': 'Suffix_Trace', 'config': 'Config_Trace', 'tworun': 'TwoRun_Trace', 'dbuf': 'DecoderBuf_Trace', 'dec': 'Decoder_Trace', 'parser': 'Parser_Trace', 'wrap': 'Wrap_Trace'}
 
 
 def replay(ctx, fam, path):
@@ -380,6 +380,53 @@ DEC_ASSUME = [
     'termination on the real code is observed by repeated-state detection (8 consecutive empty writer calls inside one API call) and a 3 s watchdog per call',
     'uint32 fields are saturated at 2^29 in recordings',
 ]
+
+
+def e2e_mutants(evs):
+    if any(e['op'] in ('panic', 'timeout', 'livelock') for e in evs):
+        return
+    if any(e['op'].startswith('dec.') and e.get('err') not in ('', 'writer') for e in evs[1:]):
+        return
+    for i, e in enumerate(evs):
+        if e['op'] == 'dec.wblock' and e['err'] == '' and e['lits'] and any(
+                x['op'] == 'dec.flush' and x['err'] == '' and all(c[2] == '' for c in x['wcalls']) for x in evs[i:]):
+            m = copy.deepcopy(evs)
+            m[i]['lits'][0] = (m[i]['lits'][0] + 1) % 256
+            yield 'flipbyte', m
+            return
+
+
+def e2e_features(evs):
+    f = set()
+    W, B = evs[0]['W'], evs[0]['B']
+    kind = evs[0]['c']['kind']
+    for e in evs[1:]:
+        op = e['op']
+        if op in ('panic', 'timeout', 'livelock'):
+            f.add(op)
+        elif op == 'dec.wblock':
+            if e['err'] == '' and any(s[0] + s[1] > W for s in e['seqs']):
+                f.add('seq_gt_window')
+            if e['err'] == '' and any(s[1] > 0 for s in e['seqs']):
+                f.add('match_' + kind)
+            if e['err'] == 'full':
+                f.add('refused_full')
+            if len(e.get('wcalls') or []) >= 2:
+                f.add('multi_flush')
+            if any(c[2] != '' for c in e.get('wcalls') or []):
+                f.add('writer_fault')
+        elif op == 'dec.write' and e.get('n', 0) > 0:
+            f.add('skipped_block')
+        elif op == 'shrink' and e['delta'] > 0:
+            f.add('parser_discard')
+    return f
+
+
+def run_e2e(ctx, fam):
+    t = ctx.thorough()
+    scripts = vlib.go_gen(ctx, 'e2e', 2400 if t else 400, ctx.seed) + corpus_scripts('e2e')
+    return finish(ctx, fam, scripts, 'E2E_Trace', e2e_mutants, e2e_features,
+                  extra_env={'VERIF_C11': '0', 'VERIF_C12': '0'})
 
 
 def fam_dec(rule):
@@ -1015,7 +1062,10 @@ PROPS = {
     'C12': fam_parser('recordings: GSAP only, histories without Parse(nil), blocks <= 64 bytes, buffers <= 130 bytes, half of them with BufferSize <= WindowSize, several fills / Shrinks / Resets; rules C12.match_longest (every emitted match equals the brute-force longest previous match in the buffered data, clipped at the block end) and C12.literal_justified', dict(walks=0, go=[('parser-gsap', 300)])),
     'C11': fam_parser('recordings: OSAP only, flags 0 mostly, blocks <= 64 bytes, buffers <= 130 bytes, several blocks per fill (edge reuse), blocks after Shrink; rule C11.cost_optimal: BlockCost = OptCost (forward DP over literal and nearest-source match edges written in TLA+)', dict(walks=0, go=[('parser-osap', 200)])),
     'C06': fam_dec('histories = random walks of Decoder.tla (API calls x writer fault schedule) + seeded Go-side histories with sizes around BufferSize-WindowSize / BufferSize, B < 2W, fault schedules and the retry protocol; C06 = no livelock / timeout event (no envelope action exists for them); liveness of the retry loops is model-checked (Terminates) on the design; non-trivial = distinct script with several flushes in one call, data larger than the free space, a refused or rejected block, or a writer fault'),
-    'C07': fam_dec('same recordings as C06; rule C07.refused: without a writer fault a Decoder call may stop only at a malformed sequence; non-trivial as for C06'),
+    'C07': dict(run=run_multi, trace_module=None, parts=[
+        fam_dec('same recordings as C06; rule C07.refused: without a writer fault a Decoder call may stop only at a malformed sequence; non-trivial as for C06'),
+        dict(run=run_e2e, trace_module='E2E_Trace', assumptions=DEC_ASSUME + PARSER_ASSUME[:2],
+             rule='composition parser || decoder: the blocks of all seven real parsers (WindowSize 4..100, BlockSize up to 3 x WindowSize on runs / periodic / structured inputs, skipped blocks as plain bytes) go into a real Decoder with the same window and BufferSize default / W+1 / W+3 / 2W / 4W / W+BlockSize through a writer with faults; rules C07.refused on every call and C07.output (after a fault-free Flush the sink is exactly what was parsed)')]),
     'C18': fam_dec('same recordings as C06; rules C18.prefix (every writer call is offered exactly the continuation of the reference expansion), C18.err_is_writers, C18.exactly_once (after a fault-free Flush the sink equals the reference expansion, also after retries of Sequences[k:], Literals[l:]); non-trivial = distinct script with a writer fault, short write or fault in the middle of a block'),
     'C04': dict(run=run_multi, parts=[fam_dbuf('histories = TLC transition cover / random walks of DecoderBufMC + seeded Go-side histories (B<=52, attacker values) + corpus; every event judged by the DecoderBuf envelope (data_suffix, retention, unread_kept, r_pos, read_out, reset); non-trivial = distinct script with a discard, mid-buffer read position, overlapping copy, rejected sequence, partial block or writer fault'),
                                   fam_dec('Decoder level: the recordings of C06/C18 (TLC walks of Decoder.tla + seeded histories with writer faults and retries); rules C04.output_exact (every writer call is offered exactly the continuation of the reference expansion: each byte once, in order) and C04.flush_complete')],
